@@ -177,6 +177,11 @@ func (c *scriptConn) Read(p []byte) (int, error) {
 			l.add(Ev{"ev": "cancel"})
 			c.cancel()
 			continue
+		case "pause":
+			// the peer is silent for N ms before the next piece
+			c.pos++
+			time.Sleep(time.Duration(st.N) * time.Millisecond)
+			continue
 		case "wslow", "rslow":
 			// (see Write) the reply begins 5/6 N ms after the request was taken
 			c.pos++
